@@ -236,8 +236,16 @@ def _check_sample(res, db, copies, rl, depth, desc, params=None, truth=False):
             vs = sorted(tables.allele_variants(g, c[0], c[1]))
             indels = [m for m in vs if m.op[:3] in ("ins", "del")]
             for m in indels:
-                if sites.get((m.pos, m.op), [0, 1])[1] == 0 and any(
-                        o != m and abs(o.pos - m.pos) <= 25 for o in indels):
+                if sites.get((m.pos, m.op), [0, 1])[1] != 0:
+                    continue
+                r = raw.get((m.pos, m.op))
+                if r is not None and "phased" in r:
+                    # exact observable: the realigner phased the indel into an event of another net length and
+                    # aldy's "subsumed indel" branch skipped it (no counts were taken)
+                    net = (len(r["ref"]) - len(r["alt"]))
+                    if "count" not in r and r["phased"][0] - r["phased"][1] != net and len(indels) > 1:
+                        subsumed.append(str(m))
+                elif any(o != m and abs(o.pos - m.pos) <= 25 for o in indels):
                     subsumed.append(str(m))
     res._subsumed = subsumed
     # ground truth for indel support: reads that really carry the indel in their alignment
